@@ -492,8 +492,8 @@ func checkC14(c *Check) {
 	c.Cond(okSel && nV1 == 2, key+":selection", p.Pos(respVal.Pos()), "selected = vals[0] | vals[1] (Kind Int edge / is-an-error edge) | none", "the selected value does not follow the table: "+why)
 
 	// ---- R5 the status the table sends is recorded
-	c.Rule("R5", "shared with C13 (R1, R2, R6)", "a status handed to the response writer reaches the client once and is recorded, so Written() turns true and the chain stops: no class of status codes bypasses the bookkeeping", 8)
-	c.Share("C13", []string{"R1", "R2", "R6"}, 8)
+	c.Rule("R5", "shared with C13 (R1, R2, R4, R6)", "a status handed to the response writer reaches the client once and is recorded, and a returned body commits the response whatever the method (the implicit 200 precedes the HEAD shortcut), so Written() turns true and the chain stops: no class of status codes or requests bypasses the bookkeeping", 8)
+	c.Share("C13", []string{"R1", "R2", "R4", "R6"}, 8)
 
 	// ---- R3 fast path equals reflective path
 	c.Rule("R3", "E6 (shared with C04.R4)", "every built-in fast invoker returns [ValueOf(r0), ValueOf(r1), …] of its function's results in declaration order on every path, whatever their value: a fast path that drops or reshapes a result (e.g. nothing for \"\") bypasses the registered return handler", 1)
